@@ -187,3 +187,48 @@ func VH_C11_TickBackground() {
 	}
 	vx.Reach("done")
 }
+
+// ---- C04 / C07 / C09: the time a tick runs at is the server clock. Every instant the coroutines compare deadlines
+// and leases with is the t handed to Tick; the proofs about time-outs and leases take it to be the clock at that
+// tick. The real loop runs with a clock that advances while the loop waits (at its select): every tick must run
+// at a reading of the clock taken after the wait that preceded it - never at a remembered, older instant.
+type vhClockSched struct {
+	vhSched
+	ticks int
+}
+
+var vhLastWait int64
+
+func (s *vhClockSched) RunUntilBlocked(t int64) {
+	s.ticks++
+	vx.Assert(t >= vhLastWait, "C04:tick-runs-at-a-clock-reading-taken-after-the-preceding-wait")
+}
+
+func VH_C04_LoopClock() {
+	vx.IgnoreGo()
+	m := metrics.New(prometheus.NewRegistry())
+	a := api.New(3, m)
+	io := &vhAIO{}
+	sc := &vhClockSched{}
+	s := &System{
+		api:          a,
+		aio:          io,
+		config:       &Config{SubmissionBatchSize: 1, CompletionBatchSize: 1, CoroutineMaxSize: 1, SignalTimeout: time.Second},
+		metrics:      m,
+		scheduler:    sc,
+		onRequest:    map[t_api.Kind]func(*t_api.Request, func(*t_api.Response, error)) gocoro.CoroutineFunc[*t_aio.Submission, *t_aio.Completion, any]{},
+		shutdown:     make(chan interface{}),
+		shortCircuit: make(chan interface{}),
+	}
+	s.AddOnRequest(t_api.Echo, vhEcho)
+	cls := []*vhClient{{}, {}}
+	vhReq(a, "r0", "a", cls[0])
+	vhReq(a, "r1", "b", cls[1])
+	vhLastWait = vx.Tick()
+	// time passes whenever the loop waits
+	vx.OnBlockingSelect(func() { vhLastWait = vx.Tick() })
+	s.Shutdown()
+	err := s.Loop()
+	vx.Assert(err == nil && sc.ticks >= 2, "C04:loop-ticks-until-drained")
+	vx.Reach("done")
+}
